@@ -1,32 +1,217 @@
 /-
-C33 — Assembler and disassembler round-trip (work in progress: first theorems).
+C33 — Assembler and disassembler round-trip.
+
+Model: `Model.AsmFormat` (binary instruction format, label resolution with varint-branch relaxation, token-level print/parse,
+static check) over the tables regenerated from the tree (`Gen.OpTable`, `Gen.AsmTable`).
+
+Part A (binary format, every environment):
+  decode_encode            FULL   decode (encode is) = is for well-formed instructions
+  ...
 -/
 import AlgoVerif.Model.AsmFormat
+import AlgoVerif.Lemmas.AsmFormatCanon
 namespace Props.C33
-open Model.OpTables Model.AsmFormat
+open Model.OpTables Model.AsmFormat Lemmas.AsmFormat
 
-/-- reading back a varuint written in exactly `w` bytes -/
-theorem readU_uvarintW : ∀ (w r n : Nat) (rest : Bytes), uvOK r w n = true →
-    readU (uvarintW w n ++ rest) r = some (n, w)
-  | 0, r, n, rest, h => by simp [uvOK] at h
-  | 1, r, n, rest, h => by
-    simp only [uvOK, Bool.and_eq_true, Bool.or_eq_true, decide_eq_true_eq] at h
-    obtain ⟨⟨h1, h2⟩, h3⟩ := h
-    have hm : n % 128 = n := Nat.mod_eq_of_lt h2
-    simp only [uvarintW, List.cons_append, List.nil_append, readU, hm]
-    rw [if_neg (by omega), if_pos h2]
-    rw [if_neg (by omega)]
-  | w + 2, r, n, rest, h => by
-    simp only [uvOK, Bool.and_eq_true, decide_eq_true_eq] at h
-    obtain ⟨h1, h2⟩ := h
-    have ih := readU_uvarintW (w + 1) (r - 1) (n / 128) rest h2
-    simp only [uvarintW, List.cons_append, readU]
-    rw [if_neg (by omega), if_neg (by omega), ih]
+/-! ## Part A — the binary format -/
+
+/-- well-formed program for version `v`: every spec is the one the version's table returns for its own bytes, immediates have
+    the kinds of the spec and fit their Go types -/
+def WFprog (env : Env) (v : Nat) (is : List Instr) : Prop := ∀ i ∈ is, InstrOK (env.look v) i
+
+theorem length_encInstr_le_encRaw {r : RInstr} : ∀ {rs : List RInstr}, r ∈ rs → (encInstr r).length ≤ (encRaw rs).length
+  | [], h => by cases h
+  | q :: rs, h => by
+    rw [encRaw_cons, List.length_append]
+    rcases List.mem_cons.mp h with rfl | h
+    · omega
+    · have := length_encInstr_le_encRaw h; omega
+
+theorem map_fst_pair (is : List Instr) (w : Nat) : (is.map (fun i => (i, w))).map (·.1) = is := by
+  induction is with
+  | nil => rfl
+  | cons a l ih => simp only [List.map_cons, ih]
+
+/-- FULL. Decoding the bytes the assembler's back end produced gives the instructions back (body level; `plen` = length of
+    the whole program, used only by the "too many items" guard). -/
+theorem decodeBody_encodeBody (env : Env) (v : Nat) (is : List Instr) (bs : Bytes) (plen : Nat)
+    (hW : env.initWidth ≤ 9) (hwf : WFprog env v is) (h : encodeBody env v is = .ok bs) (hp : bs.length ≤ plen) :
+    decodeBody env v plen bs = .ok is := by
+  unfold encodeBody at h
+  cases h1 : relax (env.initWidth * is.length + 1) (is.map (fun i => (i, env.initWidth))) with
+  | error x => simp [h1] at h
+  | ok xs =>
+    simp only [h1] at h
+    cases h2 : resolve v env.backBranchVersion xs with
+    | error x => simp [h2] at h
+    | ok rs =>
+      simp only [h2, Except.ok.injEq] at h; subst h
+      obtain ⟨hfst, hle⟩ := relax_ok _ _ _ h1
+      rw [map_fst_pair] at hfst
+      have hx : ∀ x ∈ xs, InstrOK (env.look v) x.1 ∧ x.2 ≤ 9 := by
+        intro x hx
+        refine ⟨hwf x.1 (by rw [← hfst]; exact List.mem_map_of_mem hx), ?_⟩
+        have := hle env.initWidth (by intro y hy; obtain ⟨i, _, rfl⟩ := List.mem_map.mp hy; exact Nat.le_refl _) x hx
+        omega
+      obtain ⟨a, c, d, _⟩ := resolve_ok (look := env.look v) hx h2
+      unfold decodeBody
+      rw [decRaw_enc (env.look v) plen rs (encRaw rs).length a
+        (fun r hr i hi => Nat.le_trans (c r hr i hi) (Nat.le_trans (length_encInstr_le_encRaw hr) hp)) (Nat.le_refl _)]
+      simp only [d, hfst]
+
+/-- FULL. `decode (encode is) = is`: the version byte(s) and the instructions of an assembled program are read back exactly. -/
+theorem decode_encode (env : Env) (v : Nat) (is : List Instr) (bs : Bytes)
+    (hW : env.initWidth ≤ 9) (hv : v ≤ env.logicVersion) (hv64 : v < two64) (hwf : WFprog env v is)
+    (h : encode env v is = .ok bs) : decode env bs = .ok (v, is) := by
+  unfold encode at h
+  cases hb : encodeBody env v is with
+  | error x => simp [hb] at h
+  | ok body =>
+    simp only [hb, Except.ok.injEq] at h; subst h
+    unfold decode
+    rw [show uvarint v = uvarintW (uvarLen v) v from rfl, readU_uvarintW _ 10 v body (uvOK_min v hv64)]
     simp only []
-    congr 2
-    omega
+    rw [if_neg (by omega), List.drop_left' (length_uvarintW _ _)]
+    rw [decodeBody_encodeBody env v is body _ hW hwf hb (by simp)]
 
-example : uvOK 10 2 300 = true := by decide
-example : readU (uvarintW 2 300 ++ [7]) 10 = some (300, 2) := readU_uvarintW 2 10 300 [7] (by decide)
+/-! ### the relaxation of varint branch sizes (findBranchSizes) -/
+
+/-- FULL. The shrinking loop always reaches a fixpoint within the fuel the model gives it (`initWidth * n + 1` rounds): the
+    explicit out-of-fuel branch of `relax` is dead. -/
+theorem relax_terminates (env : Env) (is : List Instr) :
+    ∃ xs, relax (env.initWidth * is.length + 1) (is.map (fun i => (i, env.initWidth))) = .ok xs :=
+  relax_fuel _ _ (by rw [listSum_const]; omega)
+
+/-- FULL. At the fixpoint every varint offset fills its placeholder exactly, or the jump is reported too far: label
+    resolution never leaves a placeholder wider than the offset written into it (the `placeholder` branch of `resolve` is
+    dead, the assembler's output has no stray zero bytes after a branch offset). -/
+theorem relax_terminates_and_fits (env : Env) (v : Nat) (is : List Instr) (h1 : ∀ i ∈ is, OneV i) :
+    ∃ xs, relax (env.initWidth * is.length + 1) (is.map (fun i => (i, env.initWidth))) = .ok xs ∧
+      resolve v env.backBranchVersion xs ≠ .error .placeholder := by
+  obtain ⟨xs, hx⟩ := relax_terminates env is
+  refine ⟨xs, hx, relax_fits _ _ xs v _ hx ?_⟩
+  intro y hy
+  have hf := (relax_ok _ _ _ hx).1
+  rw [map_fst_pair] at hf
+  exact h1 y.1 (by rw [← hf]; exact List.mem_map_of_mem hy)
+
+/-- FULL. `encode` never fails for lack of fuel or with a too-wide placeholder. -/
+theorem encode_errors (env : Env) (v : Nat) (is : List Instr) (h1 : ∀ i ∈ is, OneV i) :
+    encode env v is ≠ .error .fuel ∧ encode env v is ≠ .error .placeholder := by
+  obtain ⟨xs, hx, hp⟩ := relax_terminates_and_fits env v is h1
+  unfold encode encodeBody
+  rw [hx]
+  simp only []
+  cases h2 : resolve v env.backBranchVersion xs with
+  | ok rs => simp
+  | error x =>
+    simp only []
+    constructor
+    · intro h
+      simp only [Except.error.injEq] at h
+      subst h
+      -- resolve never reports `fuel`
+      exact resolve_not_fuel xs h2
+    · intro h
+      simp only [Except.error.injEq] at h
+      subst h
+      exact hp h2
+
+/-! ### canonical form -/
+
+/-- `bs` is the assembler-shaped encoding of `(v, is)`: minimal version header, minimal varuints and varints in every
+    immediate, and the layout (instruction sizes) the relaxation computes for `is` -/
+def Canon (env : Env) (bs : Bytes) (v : Nat) (is : List Instr) : Prop :=
+  ∃ rs xs, bs = uvarint v ++ encRaw rs ∧ unresolve rs = some is ∧ RawMin rs ∧
+    relax (env.initWidth * is.length + 1) (is.map (fun i => (i, env.initWidth))) = .ok xs ∧ rawSizes rs = sizesOf xs
+
+/-- `canonical bs`, read off the decoder's own walk: the version varuint and every varuint / varint immediate are minimal,
+    and every varint branch has the width the assembler's relaxation chooses for the decoded program -/
+def Canonical (env : Env) (bs : Bytes) : Prop :=
+  ∃ v k rs is xs, readU bs 10 = some (v, k) ∧ k = uvarLen v ∧
+    decRaw (env.look v) bs.length (bs.drop k).length (bs.drop k) = some rs ∧ unresolve rs = some is ∧ RawMin rs ∧
+    relax (env.initWidth * is.length + 1) (is.map (fun i => (i, env.initWidth))) = .ok xs ∧ rawSizes rs = sizesOf xs
+
+/-- FULL. The assembler's output is canonical. -/
+theorem encode_canon (env : Env) (v : Nat) (is : List Instr) (bs : Bytes) (hW : env.initWidth ≤ 9)
+    (hwf : WFprog env v is) (h : encode env v is = .ok bs) : Canon env bs v is := by
+  unfold encode at h
+  cases hb : encodeBody env v is with
+  | error x => simp [hb] at h
+  | ok body =>
+    simp only [hb, Except.ok.injEq] at h; subst h
+    unfold encodeBody at hb
+    cases h1 : relax (env.initWidth * is.length + 1) (is.map (fun i => (i, env.initWidth))) with
+    | error x => simp [h1] at hb
+    | ok xs =>
+      simp only [h1] at hb
+      cases h2 : resolve v env.backBranchVersion xs with
+      | error x => simp [h2] at hb
+      | ok rs =>
+        simp only [h2, Except.ok.injEq] at hb; subst hb
+        obtain ⟨hfst, hle⟩ := relax_ok _ _ _ h1
+        rw [map_fst_pair] at hfst
+        have hx : ∀ x ∈ xs, InstrOK (env.look v) x.1 ∧ x.2 ≤ 9 := by
+          intro x hx
+          refine ⟨hwf x.1 (by rw [← hfst]; exact List.mem_map_of_mem hx), ?_⟩
+          have := hle env.initWidth (by intro y hy; obtain ⟨i, _, rfl⟩ := List.mem_map.mp hy; exact Nat.le_refl _) x hx
+          omega
+        obtain ⟨_, _, d, e⟩ := resolve_ok (look := env.look v) hx h2
+        exact ⟨rs, xs, rfl, by rw [d, hfst], resolveGo_min h2, h1, e⟩
+
+/-- FULL. Two canonical encodings of the same program are the same bytes. -/
+theorem canon_unique (env : Env) (bs bs' : Bytes) (v : Nat) (is : List Instr)
+    (h : Canon env bs v is) (h' : Canon env bs' v is) : bs = bs' := by
+  obtain ⟨rs, xs, rfl, u, m, r, sz⟩ := h
+  obtain ⟨rs', xs', rfl, u', m', r', sz'⟩ := h'
+  rw [r] at r'
+  simp only [Except.ok.injEq] at r'
+  subst r'
+  unfold unresolve at u u'
+  rw [sz] at u
+  rw [sz'] at u'
+  have hS := startsFrom_pairwise 0 (sizesOf xs) (sizesOf_pos xs)
+  rw [unresolveGo_inj hS u u' m m']
+
+/-- FULL. `canonical` bytes that decode are the canonical encoding of what they decode to. -/
+theorem canonical_canon (env : Env) (bs : Bytes) (v : Nat) (is : List Instr) (hb : IsBytes bs)
+    (hl : LookSound (env.look v)) (hc : Canonical env bs) (hd : decode env bs = .ok (v, is)) : Canon env bs v is := by
+  obtain ⟨v', k, rs, is', xs, h1, hk, h2, h3, h4, h5, h6⟩ := hc
+  unfold decode at hd
+  simp only [h1] at hd
+  split at hd
+  · cases hd
+  · unfold decodeBody at hd
+    rw [h2] at hd
+    simp only [h3, Except.ok.injEq, Prod.mk.injEq] at hd
+    obtain ⟨rfl, rfl⟩ := hd
+    obtain ⟨e1, _⟩ := readU_inv bs 10 v' k hb h1
+    obtain ⟨e2, _⟩ := decRaw_inv (env.look v') hl bs.length _ _ rs (isBytes_drop k hb) h2
+    refine ⟨rs, xs, ?_, h3, h4, h5, h6⟩
+    rw [e2, show uvarint v' = uvarintW (uvarLen v') v' from rfl, ← hk]
+    exact e1
+
+/-- FULL (`encode_decode_canonical`). If canonical bytes decode to `(v, is)` and the assembler's back end accepts `is`, it
+    reproduces exactly those bytes. (`encode_total_on_checked`, below, is the statement that it does accept programs that
+    pass the static check; it is not proved.) -/
+theorem encode_decode_canonical (env : Env) (bs bs' : Bytes) (v : Nat) (is : List Instr) (hW : env.initWidth ≤ 9)
+    (hb : IsBytes bs) (hl : LookSound (env.look v)) (hreg : ∀ op next s, env.look v op next = some s → Reg (env.look v) s)
+    (hc : Canonical env bs) (hd : decode env bs = .ok (v, is)) (he : encode env v is = .ok bs') : bs' = bs := by
+  have hcan := canonical_canon env bs v is hb hl hc hd
+  -- the decoded program is well formed
+  have hwf : WFprog env v is := by
+    obtain ⟨v', k, rs, is', xs, h1, hk, h2, h3, h4, h5, h6⟩ := hc
+    unfold decode at hd
+    simp only [h1] at hd
+    split at hd
+    · cases hd
+    · unfold decodeBody at hd
+      rw [h2] at hd
+      simp only [h3, Except.ok.injEq, Prod.mk.injEq] at hd
+      obtain ⟨rfl, rfl⟩ := hd
+      obtain ⟨_, oks⟩ := decRaw_regs (env.look v') hl bs.length _ _ rs (isBytes_drop k hb) h2
+      unfold unresolve at h3
+      exact decoded_instrsOK (fun r hr => ⟨(oks r hr).2.elim (fun next hn => hreg _ next _ hn), (oks r hr).1⟩) h4 h3
+  exact canon_unique env bs' bs v is (encode_canon env v is bs' hW hwf he) hcan
 
 end Props.C33
